@@ -336,10 +336,14 @@ class C09(Check):
 
         if case.get("wrong_hint"):
             labels.add("hint:wrong")
-            o = outcome(write, schema)
-            if o[0] == "ok":
-                raise Violation("wrong-hint-accepted", f"a hint naming no branch was written without error: datum={datum!r:.200} schema={js!r:.300} bytes={o[1][:40].hex()}")
-            return labels
+            if not S.conforms(node, table, datum, tn):
+                o = outcome(write, schema)
+                if o[0] == "ok":
+                    raise Violation("wrong-hint-accepted", f"a hint naming no branch was written without error: datum={datum!r:.200} schema={js!r:.300} bytes={o[1][:40].hex()}")
+                return labels
+            # the wrongly hinted part still conforms elsewhere (e.g. as an extra key of another record branch):
+            # the ordinary oracle applies
+            labels.add("hint:wrong-but-conforming")
         if case.get("may_not_conform") and not S.conforms(node, table, datum, tn):
             labels.add("overlap:nonconforming")
             o = outcome(write, schema)
